@@ -113,7 +113,7 @@ impl ItemId {
 UNIT = {
     "name": "trace_impls",
     "env": [os.path.join(ENV, "trace_impls_env.rs")],
-    "declared_trusted": {r"external_body": 45},
+    "declared_trusted": {r"external_body": 47},
     "items": [
         {"kind": "enum", "file": TV, "name": "EdgeKind", "prefix": "#[derive(Copy, Clone, PartialEq, Eq, Structural)]"},
         {"kind": "enum", "file": FN, "name": "Abi", "prefix": "#[derive(Copy, Clone, PartialEq, Eq, Structural)]"},
@@ -242,7 +242,7 @@ UNIT = {
         {"kind": "fn", "file": "bindgen/ir/ty.rs", "name": "trace", "impl": r"^impl Trace for Type$", "impl_header": "impl Type", "impl_name": "Type",
          "subst": GEN + [
              ("self.name().is_some_and(|name| context.is_stdint_type(name))", "named_stdint(self, context)", 1, "R5"),
-             ("inner.into()", "inner.item()", 2, "R12"), ("param.into()", "param.item()", 1, "R12"), ("repr.into()", "repr.item()", 1, "R12"),
+             ("inner.into()", "inner.item()", 2, "R12"), ("param.into()", "param.item()", 1, "R12"), ("repr.into()", "repr.item()", 0, "R12"),
              ("for param in template_params", "let mut it = SliceCursor::new(template_params.as_slice()); while it.has_next()", 1, "R13"),
          ],
          "ghost_start": "let ghost log0 = tracer.log();",
